@@ -14,6 +14,13 @@ import KavaVerif.Model.Auction
       post-state.  (1) the model is run on the observed pre-state and compared (MISMATCH);
       (2) the property predicates are evaluated on the implementation's own observation (PREDFAIL).
 
+  `c06.gov  M nil blocked minter burner DF  maxDur fwdDur revDur incS incD incC (before)  … (in force after)  now
+            nextId aucs index bals   =>   nextId' aucs' index' bals'`
+      a governance parameter change while auctions are open: in the model the parameters are an argument of
+      every step and not part of the state, so the change itself moves nothing.  Predicates on the observation:
+      no stored auction, index entry or balance changes (in particular no end time / max end time is re-derived
+      from the new durations: C06_endtime param-change-moved-*), and custody / index / end ≤ max end still hold.
+
   auction  = key:id:kind:initiator:lotD:lot:bidder:bidD:bid:has:end:maxEnd:debtD:debt:maxBid:addrs:weights
   index    = end:id:value ;…      bals = one row per address `;`, one entry per denom `,`
   op       = ss:seller:lotD:lot:bidD | sd:buyer:bidD:bid:lotD:lot:debtD:debt
@@ -320,6 +327,41 @@ def handleOp : Handler
     | _, _, _, _, _, _, _, _, _, _, _, _, _, _, _ => badInput "parse"
   | _ => badInput "arity"
 
+/-- a parameter change is not a state change -/
+def govPred (M nd : Nat) (pre post : Obs) : String :=
+  match custodyPred M nd post with
+  | some why => predfail "C06_custody" why
+  | none =>
+  match indexPred post with
+  | some why => predfail "C06_index_exact" why
+  | none =>
+  match timePred post with
+  | some why => predfail "C06_endtime" why
+  | none =>
+    if pre.aucs.any (fun ka => match post.find ka.1 with
+        | some a' => a'.maxEnd != ka.2.maxEnd | none => false) then
+      predfail "C06_endtime" "param-change-moved-max-end"
+    else if pre.aucs.any (fun ka => match post.find ka.1 with
+        | some a' => a'.endT != ka.2.endT | none => false) then
+      predfail "C06_endtime" "param-change-moved-end"
+    else if pre.aucs.any (fun ka => (post.find ka.1).isNone) then predfail "C06_endtime" "param-change-closed-auction"
+    else if pre.aucs.any (fun ka => post.find ka.1 != some ka.2) || post.aucs.length != pre.aucs.length then
+      predfail "C06_bid_rules" "param-change-rewrote-auction"
+    else if pre.bals != post.bals then predfail "C06_custody" "param-change-moved-coins"
+    else if pre.index != post.index then predfail "C06_index_exact" "param-change-rewrote-index"
+    else if pre.nextId != post.nextId then predfail "C06_index_exact" "param-change-moved-next-id"
+    else "ok"
+
+def handleGov : Handler
+  | [M, _nilA, _blocked, _minter, _burner, _DF, _, _, _, _, _, _, maxDur, fwdDur, revDur, incS, incD, incC, _now,
+     nextId, aucs, index, bals, _, nextId', aucs', index', bals'] =>
+    match nat? M, int? maxDur, int? fwdDur, int? revDur, int? incS, int? incD, int? incC,
+          parseObs nextId aucs index bals, parseObs nextId' aucs' index' bals' with
+    | some M, some _, some _, some _, some _, some _, some _, some pre, some post =>
+      govPred M (pre.bals.getD 0 []).length pre post
+    | _, _, _, _, _, _, _, _, _ => badInput "parse"
+  | _ => badInput "arity"
+
 def handlers : List (String × Handler) :=
-  [("c06.split", handleSplit), ("c06.inc", handleInc), ("c06.op", handleOp)]
+  [("c06.split", handleSplit), ("c06.inc", handleInc), ("c06.op", handleOp), ("c06.gov", handleGov)]
 end Drv.C06
